@@ -5,7 +5,7 @@ from .common import *   # noqa: F401,F403
 from . import linegen as lg
 
 KS = ["KBpm", "KTs", "KAnchor"]
-LEAF = ['Leaf_bpm', 'Leaf_timed']      # translated leaf functions this property's model relies on (Tie/<name>.v)
+LEAF = ['Leaf_bpm', 'Leaf_timed', 'Leaf_dispatch', 'Leaf_tracks']      # translated functions this property's model relies on (Tie/<name>.v)
 RULE = ("(a) line level: canonical B/TS/A lines (1-20 digit numbers, leading zeros, pads, non-ASCII decimal digits, trailing newline), canonical lines of the other kinds, near misses and "
         "one-character mutations, each given to BPMEvent/TimeSignatureEvent/AnchorEvent.ParsedData.from_chart_line and judged against the reference decoder; "
         "(b) chart level: [SyncTrack] sections with B n for n over 1..999 (every value once in thorough), stratified larger n incl. the pinned-tree witnesses 1118, 20548, up to 12 digits, "
